@@ -297,6 +297,7 @@ def run_sim(env, plan, main, prepare, max_vt=400.0):
     out = {"api_mismatch": [], "api_errors": [], "stalled": [], "outcome": "ok", "notes": [], "unexpected": []}
     prepare(cluster, truth, plan)
     probe.install()
+    unguard = spin_guard(env, cluster, out)
     try:
         S.run(main(env, cluster, probe, truth, plan, out), cluster, max_vt=max_vt)
     except S.SimTimeout as ex:
@@ -304,6 +305,7 @@ def run_sim(env, plan, main, prepare, max_vt=400.0):
         out["where"] = " <- ".join(reversed(getattr(ex, "where", None) or ["?"]))[:600]
         probe.final()
     finally:
+        unguard()
         probe.uninstall()
     out["events"] = {f"{a}/{tp.partition}": evs for (a, tp), evs in probe.events.items()}
     out["obs03"] = {tp.partition: v for tp, v in probe.obs03.items()}
@@ -312,6 +314,46 @@ def run_sim(env, plan, main, prepare, max_vt=400.0):
     out["vt"] = round(cluster.now(), 3)
     out["cluster"] = cluster
     return out
+
+
+SPIN_LIMIT = 3000          # rounds of the fetch loop …
+SPIN_WINDOW = 0.01         # … within this many virtual seconds: the loop spins on a zero timeout
+
+
+def spin_guard(env, cluster, out):
+    """A livelock of the real client must be an observation, not a hang of the check: the background
+    fetch loop calling `_get_actions_per_node` thousands of times within a few virtual milliseconds
+    (a zero `asyncio.wait` timeout; the virtual clock then creeps one tick per round) is recorded in
+    `out["livelock"]`, the future `out["abort"]` (if the workload set one) is resolved and the loop is
+    stopped by an exception.  Returns the function that removes the guard."""
+    F = env.fetcher.Fetcher
+    orig = F.__dict__["_get_actions_per_node"]
+    st = {"t0": None, "n": 0}
+
+    def guarded(fself, assignment):
+        now = cluster.now()
+        if st["t0"] is None or now - st["t0"] > SPIN_WINDOW:
+            st["t0"], st["n"] = now, 0
+        st["n"] += 1
+        if st["n"] > SPIN_LIMIT:
+            if not out.get("livelock"):
+                res = orig(fself, assignment)
+                out["livelock"] = {
+                    "rounds": st["n"], "within_virtual_s": round(now - st["t0"], 6), "at_virtual_s": round(now, 6),
+                    "wait_timeout": res[2], "fetch_requests": len(res[0]),
+                    "buffered": sorted(f"{tp.topic}-{tp.partition}" for tp in fself._records)}
+                ab = out.get("abort")
+                if ab is not None and not ab.done():
+                    ab.set_result(None)
+            raise RuntimeError("akverif: the fetch loop spins (livelock), stopped by the harness")
+        return orig(fself, assignment)
+
+    F._get_actions_per_node = guarded
+
+    def remove():
+        F._get_actions_per_node = orig
+
+    return remove
 
 
 def logging_off():
@@ -339,9 +381,132 @@ def c03_faults(cluster, plan):
 
 
 def c03_trace(env, plan):
+    if plan.get("kind") == "c03sub":
+        return run_sim(env, plan, c03sub_main, c03_prepare, max_vt=400.0)
     if plan.get("kind") == "c03tie":
         return run_sim(env, plan, c03tie_main, lambda cluster, truth, pl: None, max_vt=300.0)
     return run_sim(env, plan, c03_main, c03_prepare)
+
+
+# ------------------------------------------------------------------------------------ C03: a subset is polled
+def c03sub_plans(thorough=False):
+    """Partitions that share a leader, the application polls only some of them: prefetched data of the
+    others stays buffered (their `FetchResult` sits in `Fetcher._records` past its prefetch back-off)
+    while the polled ones need many more fetches from the same broker (small max_partition_fetch_bytes).
+    Required: the polled partitions are delivered to the end of their logs within a bounded virtual
+    time, nothing comes from the others meanwhile; afterwards everything is polled and all partitions
+    reach their log ends."""
+    plans = []
+    idx = 0
+
+    def dense(n_batches, width):
+        return "|".join(f"{b * width}:{(b + 1) * width}:0:" + ".".join(str(b * width + k) for k in range(width))
+                        for b in range(n_batches))
+
+    shapes = [(1, 2, [1]), (1, 3, [2]), (2, 4, [2]), (1, 3, [0, 2])] if thorough else [(1, 2, [1]), (2, 4, [2]), (1, 3, [0, 2])]
+    for nodes, nparts, polled in shapes:
+        for mode in ("getone", "getmany", "iter"):
+            for fetch_bytes in ((120, 250) if thorough else (250 if mode == "getmany" else 120,)):
+                logs = []
+                for p in range(nparts):
+                    nb = 14 if p in polled else 3
+                    logs.append({"fmt": "v2", "first": dense(nb, 2), "later": "-", "later_at": 0.0})
+                plans.append({
+                    "kind": "c03sub", "idx": 200000 + idx, "seed": 8000 + idx, "nodes": nodes, "nparts": nparts, "logs": logs,
+                    "polled": polled, "mode": mode, "reset": "earliest", "isolation": "read_uncommitted", "jitter": 0.0,
+                    "max_wait": 100, "fetch_bytes": fetch_bytes, "faults": {"p": 0.0, "seed": 0}, "bound": 30.0,
+                })
+                idx += 1
+    return plans
+
+
+async def c03sub_main(env, cluster, probe, truth, plan, out):
+    TP = env.TP
+    nparts = plan["nparts"]
+    tps = [TP("t", i) for i in range(nparts)]
+    polled = [tps[i] for i in plan["polled"]]
+    boot = ",".join(f"b{i}:9092" for i in range(plan["nodes"]))
+    c = env.consumer.AIOKafkaConsumer(
+        bootstrap_servers=boot, client_id="c", auto_offset_reset="earliest", enable_auto_commit=False,
+        fetch_max_wait_ms=plan["max_wait"], request_timeout_ms=3000, retry_backoff_ms=50, metadata_max_age_ms=60000,
+        max_partition_fetch_bytes=plan["fetch_bytes"])
+    await c.start()
+    probe.wrap_client(c._client)
+    c.assign(tps)
+    loop = asyncio.get_event_loop()
+    out["abort"] = loop.create_future()
+    asg = c._subscription.subscription.assignment
+
+    def behind(parts):
+        res = []
+        for tp in parts:
+            st = asg.state_value(tp)
+            leo = cluster.log(("t", tp.partition)).leo
+            if not st.has_valid_position or st.position < leo:
+                res.append({"partition": tp.partition, "position": st._position, "log_end": leo})
+        return res
+
+    async def call(kind, parts, coro_fn):
+        rec = {"parts": set(parts) if parts else None, "got": []}
+        tok = cc.Probe.call.set(rec)
+        try:
+            ret = await coro_fn()
+        finally:
+            cc.Probe.call.reset(tok)
+        if kind == "getone":
+            returned = [] if ret is None else [(ret.partition, ret.offset)]
+        else:
+            returned = [(tp.partition, m.offset) for tp, ms in ret.items() for m in ms]
+        if sorted(returned) != sorted(rec["got"]):
+            out["api_mismatch"].append({"call": kind, "returned": returned, "handed_out": rec["got"]})
+        if parts and any(p not in [tp.partition for tp in parts] for p, _ in returned):
+            out["api_mismatch"].append({"call": kind, "filter": [tp.partition for tp in parts], "returned": returned,
+                                        "why": "partition outside the filter"})
+        return returned
+
+    async def poll(parts, bound):
+        deadline = cluster.now() + bound
+        while cluster.now() < deadline and behind(parts if parts else tps):
+            if plan["mode"] == "getmany":
+                async def f():
+                    return await c.getmany(*parts, timeout_ms=200, max_records=3)
+                await call("getmany", parts, f)
+            else:
+                async def f():
+                    try:
+                        return await asyncio.wait_for(c.getone(*parts), 1.0)
+                    except asyncio.TimeoutError:
+                        return None
+                await call("getone", parts, f)
+            if plan["mode"] == "iter":
+                await asyncio.sleep(0.02)        # an application slower than the broker
+
+    async def work():
+        await poll(polled, plan["bound"])
+        left = behind(polled)
+        if left:
+            for x in left:
+                x["why"] = (f"only partitions {plan['polled']} are polled (the others hold prefetched data on the same broker); "
+                            f"after {plan['bound']} virtual seconds the polled partition has not reached its log end")
+            out["stalled"] += left
+            return
+        await poll([], plan["bound"])
+        out["stalled"] += behind(tps)
+
+    w = asyncio.ensure_future(work())
+    await asyncio.wait([w, out["abort"]], return_when=asyncio.FIRST_COMPLETED)
+    if not w.done():
+        w.cancel()
+        try:
+            await w
+        except BaseException:  # noqa
+            pass
+        out["stalled"] += behind(tps)
+    elif w.exception() is not None:
+        out["unexpected"].append(f"workload: {type(w.exception()).__name__}: {w.exception()}"[:300])
+    out["abort"] = None
+    probe.final()
+    await safe_stop(c, out)
 
 
 # ------------------------------------------------------------------------------------ C03: exact ties
@@ -487,6 +652,10 @@ def judge_c03(ctx, plan, out, acc_results, holds_results):
                 ctx.broken.append({"kind": "correspondence", "tie": "T-trace c03 acc (real consumer vs AkVerif.Consume.step)",
                                    "partition_state": key, "driver": r[:400], "case": plan})
             clean = False
+    if out.get("livelock"):
+        ctx.violation("c03:livelock", f"the consumer's background fetch loop spins without waiting: {out['livelock']}; "
+                      f"undelivered: {out['stalled']}", {**replay, "livelock": out["livelock"], "stalled": out["stalled"]})
+        return False
     if out["unexpected"]:
         ctx.violation("c03:unexpected-exception", f"a consumer call raised an exception that is no Kafka error: {out['unexpected'][0]}",
                       {**replay, "exceptions": out["unexpected"][:5]})
@@ -506,9 +675,11 @@ def judge_c03(ctx, plan, out, acc_results, holds_results):
 def run_c03(ctx, env, plans=None, guarded=True):
     n = 4000 if ctx.thorough else 100
     rng = ctx.rng("sim")
-    plans = plans if plans is not None else c03tie_plans(ctx.thorough) + [c03_plan(rng, i, ctx.thorough) for i in range(n)]
+    plans = plans if plans is not None else (c03tie_plans(ctx.thorough) + c03sub_plans(ctx.thorough)
+                                             + [c03_plan(rng, i, ctx.thorough) for i in range(n)])
     clean = True
-    hist = {"tie_schedules": sum(1 for p in plans if p.get("kind") == "c03tie"), "tie_rounds": 0, "delivered": 0, "seeks": 0, "events": 0, "fetch_answers": 0, "oor": 0, "stalled": 0, "timeouts": 0,
+    hist = {"tie_schedules": sum(1 for p in plans if p.get("kind") == "c03tie"), "tie_rounds": 0,
+            "subset_poll_schedules": sum(1 for p in plans if p.get("kind") == "c03sub"), "livelocks": 0, "delivered": 0, "seeks": 0, "events": 0, "fetch_answers": 0, "oor": 0, "stalled": 0, "timeouts": 0,
             "stop_raised_cancelled_error(C19 matter)": 0}
     unclean = 0
     chunk = 20
@@ -528,7 +699,7 @@ def run_c03(ctx, env, plans=None, guarded=True):
                 vis = out["visible"][p]
                 lines.append("c03 holds " + (",".join(map(str, vis)) if vis else "-") + " " + (";".join(obs) if obs else "-"))
                 where.append((len(outs) - 1, "holds", p))
-            if out["stalled"] or out["outcome"] != "ok" or out["unexpected"]:
+            if out["stalled"] or out["outcome"] != "ok" or out["unexpected"] or out.get("livelock"):
                 unclean += 1
                 if unclean >= 3:
                     break
@@ -551,6 +722,7 @@ def run_c03(ctx, env, plans=None, guarded=True):
             hist["fetch_answers"] += sum(1 for e in out["events"].values() for x in e if x[1].startswith("R"))
             hist["oor"] += sum(1 for e in out["events"].values() for x in e if x[1].endswith("=O"))
             hist["stalled"] += 1 if out["stalled"] else 0
+            hist["livelocks"] += 1 if out.get("livelock") else 0
             hist["timeouts"] += 1 if out["outcome"] != "ok" else 0
             ctx.count(("c03sim", plan["seed"], plan["idx"]), nontrivial=nd >= 5 and ns >= 1)
             ctx.coverage["traces_validated_against_impl"] += 1
@@ -565,7 +737,7 @@ def run_c03(ctx, env, plans=None, guarded=True):
 
 def replay(ctx, env, cases, prop, guarded=True):
     ok = True
-    sims = [c for c in cases if c.get("kind") in ("c03", "c03tie")]
+    sims = [c for c in cases if c.get("kind") in ("c03", "c03tie", "c03sub")]
     if sims:
         ok = run_c03(ctx, env, sims, guarded) and ok
     return ok
@@ -808,3 +980,137 @@ async def c13lag_main(env, cluster, probe, truth, plan, out):
 
 def c13lag_trace(env, plan):
     return run_sim(env, plan, c13lag_main, c13lag_prepare, max_vt=200.0)
+
+
+# ------------------------------------------------------------------------------------ C13: assignment replaced
+RE_LOG = "0:5:0:0.1.2.3.4|5:10:0:5.6.7.8.9"
+
+
+def c13re_plans(thorough=False):
+    """A consumer WITHOUT group_id whose assignment is replaced after the first one has been
+    positioned: `assign()` again with another / a larger / the same set of partitions, or a
+    subscribed topic that grows (metadata change → all partitions re-assigned).  Every partition of
+    every new assignment must get its start position (log start / log end / NoOffsetForPartition)
+    within a bounded virtual time and deliver."""
+    plans = []
+    idx = 0
+    assign_steps = [[[0], [1]], [[0], [0, 1], [0, 1, 2]], [[0, 1], [0, 1], [2]]]
+    if thorough:
+        assign_steps += [[[0], [0], [0]], [[2], [1], [0]], [[0, 1, 2], [1], [0, 1, 2]]]
+    for policy in ("earliest", "latest", "none"):
+        for steps in assign_steps:
+            plans.append({"kind": "c13re", "seed": 9500 + idx, "nodes": 2, "nparts": 3, "mode": "assign", "steps": steps,
+                          "policy": policy, "bound": 10.0})
+            idx += 1
+        for steps in ([[1, 2, 3], [2, 3]] if thorough else [[1, 2, 3]]):
+            plans.append({"kind": "c13re", "seed": 9500 + idx, "nodes": 2, "nparts": steps[0], "mode": "subscribe", "steps": steps,
+                          "policy": policy, "bound": 10.0})
+            idx += 1
+    return plans
+
+
+def c13re_prepare(cluster, truth, plan):
+    for p in range(plan["nparts"]):
+        for ab in parse_log(RE_LOG, "v2"):
+            truth.add(("t", p), ab)
+            inject(cluster, ("t", p), ab)
+
+
+async def c13re_main(env, cluster, probe, truth, plan, out):
+    E = env.errors
+    policy, bound = plan["policy"], plan["bound"]
+    c = env.consumer.AIOKafkaConsumer(
+        bootstrap_servers="b0:9092,b1:9092", client_id="c", auto_offset_reset=policy, enable_auto_commit=False,
+        fetch_max_wait_ms=50, request_timeout_ms=3000, retry_backoff_ms=50, metadata_max_age_ms=500)
+    # the client is wrapped before start(): with subscribe() the first assignment and its first fetch
+    # happen inside / right after start(), and the probe must see that fetch answer too
+    probe.wrap_client(c._client)
+    if plan["mode"] == "subscribe":
+        c.subscribe(["t"])
+    await c.start()
+    out["failures"] = []
+    out["steps_done"] = 0
+
+    def fail(k, p, why, **kw):
+        asg = c._subscription.subscription.assignment if c._subscription.subscription is not None else None
+        st = asg.state_value(env.TP("t", p)) if asg is not None else None
+        out["failures"].append({"step": k, "partition": p, "why": why, "position": getattr(st, "_position", None),
+                                "pending_reset": getattr(st, "_reset_strategy", None), **kw})
+
+    async def check(k, parts):
+        asg = c._subscription.subscription.assignment
+        for p in parts:
+            tp = env.TP("t", p)
+            log = cluster.log(("t", p))
+            if policy == "earliest":
+                try:
+                    m = await asyncio.wait_for(c.getone(tp), bound)
+                except asyncio.TimeoutError:
+                    fail(k, p, "nothing delivered")
+                    continue
+                probe.o13(tp, f"p{m.offset}")
+                if m.offset != log.log_start:
+                    fail(k, p, "first record is not the log start", first=m.offset)
+            elif policy == "latest":
+                deadline = cluster.now() + bound
+                st = asg.state_value(tp)
+                while cluster.now() < deadline and not st.has_valid_position:
+                    await asyncio.sleep(0.05)
+                if not st.has_valid_position:
+                    fail(k, p, "no position")
+                    continue
+                probe.o13(tp, f"p{st.position}")
+                end = log.leo
+                if st.position != end:
+                    fail(k, p, "position is not the log end", log_end=end)
+                    continue
+                ab = cc.AB(end, end + 1, False, [end], "v2")
+                ab.raw = cc.encode_batch(ab)
+                truth.add(("t", p), ab)
+                inject(cluster, ("t", p), ab)
+                try:
+                    m = await asyncio.wait_for(c.getone(tp), bound)
+                    if m.offset != end:
+                        fail(k, p, "record appended at the log end is not the next one delivered", first=m.offset)
+                except asyncio.TimeoutError:
+                    fail(k, p, "record appended after the reset is not delivered")
+            else:
+                try:
+                    m = await asyncio.wait_for(c.getone(tp), bound)
+                    fail(k, p, "a record was delivered although nothing is committed and the policy is none", first=m.offset)
+                except asyncio.TimeoutError:
+                    fail(k, p, "NoOffsetForPartitionError did not reach the caller")
+                except E.NoOffsetForPartitionError:
+                    probe.o13(tp, "e2")
+
+    for k, step in enumerate(plan["steps"]):
+        if plan["mode"] == "assign":
+            parts = list(step)
+            c.assign([env.TP("t", p) for p in parts])
+        else:
+            if k > 0:
+                have = cluster.topics["t"]
+                cluster.add_partitions("t", step)
+                for p in range(have, step):
+                    for ab in parse_log(RE_LOG, "v2"):
+                        truth.add(("t", p), ab)
+                        inject(cluster, ("t", p), ab)
+            parts = list(range(step))
+            want = {env.TP("t", p) for p in parts}
+            deadline = cluster.now() + bound
+            while cluster.now() < deadline and c.assignment() != want:
+                await asyncio.sleep(0.05)
+            if c.assignment() != want:
+                out["failures"].append({"step": k, "why": "the grown topic was not re-assigned", "assignment":
+                                        sorted(tp.partition for tp in c.assignment())})
+                break
+        await check(k, parts)
+        out["steps_done"] = k + 1
+        if out["failures"]:
+            break
+    probe.final()
+    await safe_stop(c, out)
+
+
+def c13re_trace(env, plan):
+    return run_sim(env, plan, c13re_main, c13re_prepare, max_vt=300.0)
